@@ -576,3 +576,50 @@ package scipipe
 //@   props C09 C14 C15
 //@   deterministic structural
 //@   ensures returns-only-if-present: tagName in t.Tags && res == t.Tags[tagName]
+
+// ---------------------------------------------------------------------------
+// C15: path modifiers (common.go applyPathModifiers)
+// ---------------------------------------------------------------------------
+
+//@ ghost func reGroup(pat string, s string, i int) string
+//@ ghost func afterLastSlash(x string) string
+//@ ghost func beforeLastSlash(x string) string
+//@ ghost func foldMods(x string, ms seq[string], n int) string
+
+// Assumed facts about Go's regexp for the four pattern literals of applyPathModifiers (validated by differential tests).
+//@ axiom re.subst.groups: forall a string, b string :: fullMatch(a, "[^/]+") && fullMatch(b, "[^/]*") ==> reGroup("s\\/([^\\/]+)\\/([^\\/]*)\\/", "s/" + a + "/" + b + "/", 1) == a && reGroup("s\\/([^\\/]+)\\/([^\\/]*)\\/", "s/" + a + "/" + b + "/", 2) == b
+//@ axiom re.trim.group: forall s string :: !contains(s, "\n") ==> reGroup("%(.*)", "%" + s, 1) == s
+//@ axiom re.basename: forall x string :: !contains(x, "\n") ==> reReplaceAll(".*\\/", x, "") == afterLastSlash(x)
+//@ axiom re.dirname: forall x string :: !contains(x, "\n") ==> reReplaceAll("\\/[^\\/]*$", x, "") == beforeLastSlash(x)
+// Meaning of the two spec functions (documented semantics of basename / dirname).
+//@ axiom afterLastSlash.split: forall d string, f string :: !contains(f, "/") ==> afterLastSlash(d + "/" + f) == f
+//@ axiom afterLastSlash.none: forall x string :: !contains(x, "/") ==> afterLastSlash(x) == x
+//@ axiom beforeLastSlash.split: forall d string, f string :: !contains(f, "/") ==> beforeLastSlash(d + "/" + f) == d
+//@ axiom beforeLastSlash.none: forall x string :: !contains(x, "/") ==> beforeLastSlash(x) == x
+//@ axiom nonewline.stable.after: forall x string :: !contains(x, "\n") ==> !contains(afterLastSlash(x), "\n")
+//@ axiom nonewline.stable.before: forall x string :: !contains(x, "\n") ==> !contains(beforeLastSlash(x), "\n")
+//@ axiom foldMods.zero: forall x string, ms seq[string] :: foldMods(x, ms, 0) == x
+//@ axiom foldMods.step: forall x string, ms seq[string], n int :: n > 0 ==> foldMods(x, ms, n) == modstep(foldMods(x, ms, n - 1), ms[n - 1])
+
+//@ extern (*regexp.Regexp).FindStringSubmatch(re, s) (res)
+//@   deterministic by-contract pure library function
+//@   ensures groups: forall i int :: 0 <= i && i < len(res) ==> res[i] == reGroup(regexLit(re), s, i)
+
+// The documented modifiers (docs/writing_workflows.md): basename, dirname, %SUFFIX, s/SEARCH/REPLACE/
+//@ define isSubstMod(m string) bool = fullMatch(m, "s/[^/%\n]+/[^/%\n]*/")
+//@ define isTrimMod(m string) bool = hasPrefix(m, "%") && !contains(m, "\n") && !matches(m, "s\\/([^\\/]+)\\/([^\\/]*)\\/") && m != "%basename" && m != "%dirname"
+//@ define docMod(m string) bool = m == "basename" || m == "dirname" || isTrimMod(m) || isSubstMod(m)
+//@ define substA(m string) string = substr(m, 2, indexOf(substr(m, 2, len(m) - 2), "/"))
+//@ define substB(m string) string = substr(m, 3 + len(substA(m)), len(m) - 4 - len(substA(m)))
+//@ define trimSuffix(x string, s string) string = ite(len(x) > len(s) && hasSuffix(x, s), substr(x, 0, len(x) - len(s)), x)
+//@ define modstep(x string, m string) string = ite(m == "basename", afterLastSlash(x), ite(m == "dirname", beforeLastSlash(x), ite(hasPrefix(m, "%"), trimSuffix(x, substr(m, 1, len(m) - 1)), ite(isSubstMod(m), replaceFirst(x, substA(m), substB(m)), x))))
+
+//@ func applyPathModifiers(path, modifiers) (res)
+//@   props C15
+//@   deterministic structural
+//@   requires documented: forall j int :: 0 <= j && j < len(modifiers) ==> docMod(modifiers[j])
+//@   requires no-newline: !contains(path, "\n")
+//@   ensures left-to-right: res == foldMods(path, modifiers, len(modifiers))
+//@   loop 0 invariant range: 0 <= $i && $i <= len(modifiers)
+//@   loop 0 invariant fold: replacement == foldMods(path, modifiers, $i)
+//@   loop 0 invariant no-newline: !contains(replacement, "\n")
